@@ -32,7 +32,8 @@ _PACKED_COMMON = ["P.sig-missing", "P.alg-missing", "P.sig-other-authdata", "P.s
 CATALOGUE = {
     "ceremony": [
         "R.type-get", "R.type-other", "R.chal-other", "R.chal-prefix", "R.chal-extended", "R.origin-other-host",
-        "R.origin-case", "R.origin-trailing-slash", "R.origin-scheme", "R.rpid-other", "R.rpid-uppercase",
+        "R.origin-case", "R.origin-trailing-slash", "R.origin-scheme", "R.origin-explicit-default-port", "R.rpid-other", "R.rpid-uppercase",
+        "R.rpid-hash-of-origin",
         "R.rpid-hash-of-lowercase", "R.rpid-hash-of-idna-form", "R.cdj-undecodable-byte-in-origin", "R.cdj-undecodable-byte-in-type",
         "R.up-clear", "R.uv-clear", "R.at-clear", "R.at-clear-data-present", "R.credid-empty",
         "R.id-other-credential", "R.id-padded", "R.id-std-alphabet", "R.cred-type", "R.fmt-unknown",
@@ -239,6 +240,10 @@ def _origin(b: _Build) -> str:
         return origin + "/"
     if b.has("R.origin-scheme"):
         return f"{'http' if parts.scheme == 'https' else 'https'}://{parts.hostname}{port}"
+    if b.has("R.origin-explicit-default-port"):
+        if parts.port or parts.scheme not in ("https", "http"):
+            raise NotApplicable("needs a web origin without a port")
+        return origin + (":443" if parts.scheme == "https" else ":80")
     return origin
 
 
@@ -300,6 +305,8 @@ def _rp_id_hash(b: _Build) -> bytes:
         rp_id = "other-rp.example"
     if b.has("R.rpid-uppercase"):
         rp_id = rp_id.upper()
+    if b.has("R.rpid-hash-of-origin"):
+        rp_id = _origin(b)             # a U2F AppID: the origin, not the RP ID
     # the hash of a *different string* that some would call "the same domain": only meaningful when it differs
     if b.has("R.rpid-hash-of-lowercase"):
         if rp_id.lower() == rp_id:
